@@ -8,13 +8,35 @@ import absval as A
 import common
 from sx import Sym
 
-RULE = ("four block kinds x seeded contents (0..6 items; duplicate labels, empty label, labels differing only in case or blanks) x "
-        "keys: every integer in -n-2..n+1, True/False, every present label and absent ones, item objects, None, 1.5, b'x', "
+RULE = ("four block kinds x seeded contents (0..6 items; duplicate labels, empty label, labels differing only in case or blanks; 30 %: labels "
+        "longer than the on-disk field, with an embedded NUL, composed/decomposed accents, one-to-many case pairs) x "
+        "keys: every integer in -n-2..n+1, True/False, every present label, absent ones, and every string that truncation at NUL or at 255, "
+        "stripping, case folding or unicode normalisation would identify with a present label, item objects, None, 1.5, b'x', "
         "numpy integers; observed: identity of the returned item / exception class, membership, len, iteration, and the block's "
         "encoding before and after; then up to three in-place edits through public attributes (an item relabelled, possibly to a "
         "label another item carries; an item deleted; the item list reversed) each followed by the same questions; non-trivial = block with a duplicate label or >=2 items; distinct by (kind, labels)")
 ASSUMPTIONS = ["labels are compared as exact strings; item identity = python object identity"]
 LABELS = ["", "a", "A", " a", "a ", "c7", "é", "b"]
+# labels a stored/normalised form of which collides with another label: longer than a 256-byte field, with an embedded NUL,
+# composed vs decomposed accents, case pairs without a one-to-one mapping, trailing control characters
+EXOTIC = ["F" * 255, "F" * 254, "F" * 256, "plate", "plate\0left", "\0hidden", "e\u0301", "\ufb01", "fi", "\u0131", "I", "i", "\u00df", "ss", "a\t", "a\n", "a\0"]
+_IDS = {}
+
+
+def lid(s):
+    """labels travel to the model as numbers: one number per distinct exact string"""
+    return _IDS.setdefault(s, len(_IDS))
+
+
+def derived_keys(labels):
+    """strings that a sloppy comparison (truncation at NUL or at the field width, stripping, case folding, unicode
+    normalisation) would identify with a label that is present"""
+    import unicodedata
+    out = []
+    for l in labels:
+        out += [l + "x", l + "\0x", l + " ", l.split("\0")[0], l[:255], l[:-1], l.upper(), l.lower(), l.casefold(), l.strip(),
+                unicodedata.normalize("NFC", l), unicodedata.normalize("NFD", l), unicodedata.normalize("NFKC", l)]
+    return out
 
 
 def mk(kind, labels, rng):
@@ -59,7 +81,7 @@ def edit(kind, blk, labels, rng):
     what = rng.choice(["relabel-to-existing", "relabel-to-existing", "relabel-new", "delete", "reverse"])
     if what.startswith("relabel"):
         i = rng.randrange(n)
-        new = rng.choice(labels) if what == "relabel-to-existing" else rng.choice(LABELS)
+        new = rng.choice(labels) if what == "relabel-to-existing" else rng.choice(LABELS + EXOTIC)
         items[i].label = new
         return labels[:i] + [new] + labels[i + 1:], f"item {i} relabelled {new!r}"
     lst = live_list(kind, blk)
@@ -82,11 +104,16 @@ def edit(kind, blk, labels, rng):
 
 
 def observe(blk, labels):
-    enc0 = A.encode(blk)
+    def enc():
+        try:
+            return A.encode(blk)
+        except Exception as e:       # labels that do not fit the on-disk field: the block is still a perfectly good list
+            return type(e).__name__
+    enc0 = enc()
     items = list(iter(blk))
     pos = {id(o): i for i, o in enumerate(items)}
     n = len(labels)
-    keys = [("idx", i) for i in range(-n - 2, n + 2)] + [("idx", True), ("idx", False)] + [("label", l) for l in sorted(set(labels)) + ["zz", "missing"]] + \
+    keys = [("idx", i) for i in range(-n - 2, n + 2)] + [("idx", True), ("idx", False)] + [("label", l) for l in sorted(set(labels + derived_keys(labels))) + ["zz", "missing"]] + \
            [("other", None), ("other", 1.5), ("other", b"x"), ("other", np.int64(0)), ("other", ("a",))] + [("item", o) for o in items[:2]]
     obs = []
     for kk, kv in keys:
@@ -106,19 +133,17 @@ def observe(blk, labels):
         ln = len(blk)
     except Exception as e:
         ln = type(e).__name__
-    unchanged = A.encode(blk) == enc0 and [id(o) for o in iter(blk)] == [id(o) for o in items]
+    unchanged = enc() == enc0 and [id(o) for o in iter(blk)] == [id(o) for o in items]
     mk_keys = []
     for kk, kv in keys:
         if kk == "idx":
             mk_keys.append([Sym("idx"), kv])
         elif kk == "label":
-            mk_keys.append([Sym("label"), LABEL_IDS[kv]])
+            mk_keys.append([Sym("label"), lid(kv)])
         else:
             mk_keys.append(Sym("other"))
-    return dict(labels=list(labels), n_items=len(items), obs=obs, ln=ln, unchanged=unchanged), [Sym("lk.run"), [LABEL_IDS[l] for l in labels], mk_keys]
+    return dict(labels=list(labels), n_items=len(items), obs=obs, ln=ln, unchanged=unchanged), [Sym("lk.run"), [lid(l) for l in labels], mk_keys]
 
-
-LABEL_IDS = {l: i for i, l in enumerate(LABELS + ["zz", "missing"])}
 
 
 def run(ctx):
@@ -128,6 +153,8 @@ def run(ctx):
         kind = rng.choice(["data3d", "force3d", "emg", "events"])
         k = rng.choice([0, 1, 2, 3, 4, 6])
         pool = rng.sample(LABELS, k=rng.choice([2, 3, len(LABELS)]))
+        if rng.random() < 0.3:
+            pool = pool[:2] + rng.sample(EXOTIC, k=rng.choice([1, 2, 4]))
         labels = [rng.choice(pool) for _ in range(k)]
         cases.append((kind, labels))
     cmds = []
